@@ -110,13 +110,34 @@ func init() {
 		r := NewRng(cfg.Seed)
 		seen := map[string]bool{}
 		var inputs []string
+		// exact replay (-case): the recorded string (a bare string or {"input": ...}) goes first
+		hasReplay := false
+		want := cfg.N
+		{
+			var rs string
+			var rin struct {
+				Input *string `json:"input"`
+			}
+			ok := loadReplayInput(cfg, "registry", &rs)
+			if !ok && loadReplayInput(cfg, "registry", &rin) && rin.Input != nil {
+				rs, ok = *rin.Input, true
+			}
+			if ok && utf8.ValidString(rs) {
+				hasReplay = true
+				seen[rs] = true
+				inputs = append(inputs, rs)
+				want++
+			} else {
+				replayMissing(cfg, rep, "registry")
+			}
+		}
 		for _, w := range rgWhole {
 			if !seen[w] {
 				seen[w] = true
 				inputs = append(inputs, w)
 			}
 		}
-		for len(inputs) < cfg.N {
+		for len(inputs) < want {
 			s := genRegString(r)
 			if seen[s] || !utf8.ValidString(s) {
 				if len(seen) > 200000 {
@@ -141,6 +162,12 @@ func init() {
 		var reqs, impl []string
 		var human []interface{}
 		for i, s := range inputs {
+			if i == 0 && hasReplay {
+				rep.BeginReplay()
+			}
+			if i == 1 && hasReplay {
+				rep.EndReplay(reqs...)
+			}
 			parts := strings.Split(qs[i], " ")
 			if len(parts) != 2 {
 				rep.Broken = append(rep.Broken, "driver (ask) answered "+qs[i])
@@ -212,6 +239,9 @@ func init() {
 			rep.Count("parse:" + strings.SplitN(out[0], ":", 2)[0])
 			rep.Count("final:" + strings.SplitN(out[1], ":", 2)[0])
 			rep.Count("dispatch:" + out[2])
+		}
+		if hasReplay && len(inputs) == 1 {
+			rep.EndReplay(reqs...)
 		}
 		rep.Compare(cfg.Driver, reqs, impl, human)
 	}
